@@ -37,23 +37,23 @@ type planEntry struct {
 
 // BatchSummary is the last line a batch worker writes.
 type BatchSummary struct {
-	Summary    bool              `json:"summary"`
-	Worker     int               `json:"worker"`
-	Next       int               `json:"next"` // next global index to run, -1 when the plan is finished
-	Runs       int               `json:"runs"`
-	PerFamily  map[string]int    `json:"per_family"`
-	Steps      int64             `json:"steps"`
-	VirtMS     int64             `json:"virt_ms"`
-	Faults     map[string]int    `json:"faults"`
-	Probes     map[string]int    `json:"probes"`
-	Policies   map[string]int    `json:"policies"`
-	Outcomes   map[string]int    `json:"outcomes"`
-	KnownHits  map[string]int    `json:"known_hits"`
-	ILHashes   []string          `json:"il_hashes"` // of non-trivial runs
-	SitePairs  []string          `json:"site_pairs"`
-	Samples    []json.RawMessage `json:"samples"`
-	ReplayUnsafe int             `json:"replay_unsafe"`
-	WallMS     int64             `json:"wall_ms"`
+	Summary      bool              `json:"summary"`
+	Worker       int               `json:"worker"`
+	Next         int               `json:"next"` // next global index to run, -1 when the plan is finished
+	Runs         int               `json:"runs"`
+	PerFamily    map[string]int    `json:"per_family"`
+	Steps        int64             `json:"steps"`
+	VirtMS       int64             `json:"virt_ms"`
+	Faults       map[string]int    `json:"faults"`
+	Probes       map[string]int    `json:"probes"`
+	Policies     map[string]int    `json:"policies"`
+	Outcomes     map[string]int    `json:"outcomes"`
+	KnownHits    map[string]int    `json:"known_hits"`
+	ILHashes     []string          `json:"il_hashes"` // of non-trivial runs
+	SitePairs    []string          `json:"site_pairs"`
+	Samples      []json.RawMessage `json:"samples"`
+	ReplayUnsafe int               `json:"replay_unsafe"`
+	WallMS       int64             `json:"wall_ms"`
 }
 
 func planFor(prop, tier string, scale float64) []planEntry {
